@@ -360,6 +360,13 @@ private:
     /** Parse optional label. */
     bool label(bool required = false, const std::string& kind = "");
     int invariant();
+    struct location_label_t
+    {
+        int kind;  // 0: invariant, 1: exponential rate
+        std::string text;
+        std::string path;
+    };
+    std::vector<location_label_t> location_labels;
     /** Parse optional committed tag. */
     bool committed();
     /** Parse optional urgent tag. */
@@ -613,19 +620,17 @@ int XMLReader::invariant()
         if (kind == nullptr)
             throw TypeException{"A label must have a \"kind\" attribute"};
         read();
-        /* Read the text and push it to the parser. */
+        /* Remember the text: the labels of a location are pushed to the parser by location()
+         * in the order the builder expects (invariant first), not in file order. */
         if (getNodeType() == XML_READER_TYPE_TEXT) {
             const xmlChar* text = xmlTextReaderConstValue(reader.get());
             auto kind_sv = std::string_view{kind};
-            // This is a terrible mess but it's too badly designed
-            // to fix at this moment.
-            if (kind_sv == "invariant") {
-                if (parse(text, S_INVARIANT) == 0)
-                    result = 0;
-            } else if (kind_sv == "exponentialrate") {
-                if (parse(text, S_EXPONENTIAL_RATE) == 0)
-                    result = 1;
-            }
+            if (kind_sv == "invariant")
+                result = 0;
+            else if (kind_sv == "exponentialrate")
+                result = 1;
+            if (result >= 0)
+                location_labels.push_back({result, std::string{(const char*)text}, path.str()});
         }
         xmlFree(kind);
     }
@@ -744,11 +749,18 @@ bool XMLReader::location()
             read();
             /* Get name of the location. */
             std::string l_name = name();
-            /* Read the invariant. */
-            while (begin(tag_t::LABEL)) {
-                int res = invariant();
-                l_invariant |= res == 0;
-                l_exponentialRate |= res == 1;
+            /* Read the invariant and the exponential rate. */
+            location_labels.clear();
+            while (begin(tag_t::LABEL))
+                invariant();
+            std::stable_sort(location_labels.begin(), location_labels.end(),
+                             [](const auto& a, const auto& b) { return a.kind < b.kind; });
+            for (const auto& l : location_labels) {
+                auto part = (l.kind == 0) ? S_INVARIANT : S_EXPONENTIAL_RATE;
+                if (parse_XTA(l.text.c_str(), parser, newxta, part, l.path) == 0) {
+                    l_invariant |= l.kind == 0;
+                    l_exponentialRate |= l.kind == 1;
+                }
             }
             /* Is the location urgent or committed? */
             bool l_urgent = urgent();
